@@ -42,6 +42,13 @@ def load_repo(modules, shim=True, stubs=()):
         if shim:
             mod.__dict__['float'] = S.SFloat
             mod.__dict__['int'] = S.SInt
+            if 'np' in mod.__dict__ and not isinstance(mod.__dict__['np'], S.NPProxy):
+                mod.__dict__['np'] = S.NPProxy(mod.__dict__['np'])
+            if m == 'geodepy.angles' and hasattr(mod, 'DECAngle') and '__new__' not in mod.DECAngle.__dict__:
+                # DECAngle subclasses float: poison the inherited payload in symbolic mode (only .dec_angle is meaningful)
+                import builtins as _b
+                mod.DECAngle.__new__ = staticmethod(
+                    lambda cls, v=0.0, *a: _b.float.__new__(cls, _b.float('nan') if isinstance(v, Sym) else v))
         out[m] = mod
         _MODS[m] = mod
     return out
